@@ -4,7 +4,7 @@
 //! oracle is violated natively.
 //!
 //! scenario (argv[1]) = semicolon-separated ops, times in ms relative to a base instant:
-//!   ins:<ms>  sleep:<ms>  wake  cancel:<idx>  min  done:<idx>  poll:<idx>
+//!   unit:<us>  ins:<ms>  sleep:<ms>  wake  cancel:<idx>  min  done:<idx>  poll:<idx>
 #![allow(dead_code, unused_imports)]
 #[path = "/repo/compio-runtime/src/time/runtime.rs"]
 mod runtime;
@@ -29,8 +29,11 @@ fn main() {
     // per inserted timer: (deadline, key if accepted, wake counter)
     let mut timers: Vec<(Instant, Option<TimerKey>, Arc<Count>)> = Vec::new();
     let mut violated = false;
-    let at = |ms: i64| -> Instant {
-        if ms >= 0 { base + Duration::from_millis(ms as u64) } else { base - Duration::from_millis((-ms) as u64) }
+    // time unit of the scenario's numbers in microseconds (default 1 ms); `unit:<us>` rescales the same
+    // history so that order-type counterexamples can be replayed at several real-time scales
+    let mut unit_us: u64 = 1000;
+    let at = |ms: i64, unit_us: u64| -> Instant {
+        if ms >= 0 { base + Duration::from_micros(ms as u64 * unit_us) } else { base - Duration::from_micros((-ms) as u64 * unit_us) }
     };
     for op in scen.split(';').filter(|s| !s.is_empty()) {
         let (name, arg) = match op.split_once(':') {
@@ -38,8 +41,11 @@ fn main() {
             None => (op, 0),
         };
         match name {
+            "unit" => {
+                unit_us = arg as u64;
+            }
             "ins" => {
-                let d = at(arg);
+                let d = at(arg, unit_us);
                 let t0 = Instant::now();
                 let k = rt.insert(d);
                 let t1 = Instant::now();
@@ -50,7 +56,7 @@ fn main() {
                 timers.push((d, k, Arc::new(Count(AtomicUsize::new(0)))));
             }
             "sleep" => {
-                let until = at(arg);
+                let until = at(arg, unit_us);
                 let now = Instant::now();
                 if until > now { std::thread::sleep(until - now); }
             }
